@@ -187,6 +187,45 @@ Theorem C08_handles_fresh_is_filtered_partial : forall ex o cs g r g' tr s,
 Proof. exact fresh_is_filtered. Qed.
 Print Assumptions C08_handles_fresh_is_filtered_partial.
 
+(* ================= unpeer as rewritten by proposed_fixes/C08-6 (operation OUnpeer6) ==================
+   The harness reads the RUNNING library (inspect.getsource(NetworkService.unpeer)): while unpeer still calls
+   get_nodes_on_shortest_path the correspondence uses OUnpeer (theorems above); once C08-6 has landed it uses OUnpeer6
+   and the statements below are the ones about the code.  `unpeer_pairs g a b` = the pairs (x, y): x a ServicePort of a,
+   y a ServicePort across one of x's links, b the one service y is connected to.  ALL pairs are removed. *)
+
+(* unpeer succeeds EXACTLY when the two services peer (for every graph; a is a service) *)
+Theorem C08_unpeer6_succeeds_iff : forall ex a b cs g,
+  class_of g a = CNS ->
+  ((exists cs' g' tr, run (exec ex (OUnpeer6 a b) cs) g = (inl cs', (g', tr))) <-> unpeer_pairs g a b <> []).
+Proof. exact unpeer6_succeeds_iff. Qed.
+Print Assumptions C08_unpeer6_succeeds_iff.
+
+(* no peering pair: "do not peer", nothing changes *)
+Theorem C08_unpeer6_not_peered : forall ex a b cs g r g' tr,
+  run (exec ex (OUnpeer6 a b) cs) g = (r, (g', tr)) -> unpeer_pairs g a b = [] ->
+  (exists e, r = inr e) /\ tr = [] /\ g' = g.
+Proof. exact unpeer6_not_peered. Qed.
+Print Assumptions C08_unpeer6_not_peered.
+
+(* it removes exactly the peering: both ends of every pair are deleted, and whatever is deleted is such an end, a
+   connection point next to one, or a link attached to them (the two-ended links go by C08_two_ended_links_deleted) *)
+Theorem C08_unpeer6_removes_exactly : forall ex a b cs g r g' tr,
+  run (exec ex (OUnpeer6 a b) cs) g = (inl r, (g', tr)) ->
+  (forall xy, In xy (unpeer_pairs g a b) -> In (fst xy) tr /\ In (snd xy) tr) /\
+  (forall x, In x tr -> exists xy, In xy (unpeer_pairs g a b) /\ (U_cp g (fst xy) true x \/ U_cp g (snd xy) true x)).
+Proof. exact unpeer6_removes_exactly. Qed.
+Print Assumptions C08_unpeer6_removes_exactly.
+
+Theorem C08_handles_unpeer6 : forall ex a b ca cb g cs' g' tr,
+  run (exec ex (OUnpeer6 a b) [ca; cb]) g = (inl cs', (g', tr)) ->
+  class_of g a = CNS -> class_of g b = CNS ->
+  same ca (cpn g a) -> same cb (cpn g b) ->
+  (forall xy, In xy (unpeer_pairs g a b) ->
+     cpn g (fst xy) = [] /\ cpn g (snd xy) = [] /\ ~ In (snd xy) (cpn g a) /\ ~ In (fst xy) (cpn g b)) ->
+  exists ca' cb', cs' = [ca'; cb'] /\ same ca' (cpn g' a) /\ same cb' (cpn g' b).
+Proof. exact handles_unpeer6. Qed.
+Print Assumptions C08_handles_unpeer6.
+
 (* ================= non-vacuity ======================================================================== *)
 Example C08_nonvacuous_remove_node :
   ok_of (run (exec true (ORemoveNode 10) []) G1) = true /\
@@ -248,3 +287,12 @@ Proof.
   destruct ex_remove_interface_handle as [A [B [C D]]]. destruct ex_remove_child_handle as [E [F G]].
   repeat split; assumption.
 Qed.
+
+(* "peered and connected" (G8): the path-based unpeer is ambiguous, the rewrite removes exactly the peering *)
+Example C08_nonvacuous_unpeer6 :
+  (exists l, unpeer_ends G8 1 5 = Some l /\ length l = 2%nat) /\
+  fst (run (exec true (OUnpeer 1 5) [[2; 6]%N; [4; 8]%N]) G8) = inr EAmbig /\
+  unpeer_pairs G8 1 5 = [(6, 8)%N] /\ cpn G8 6 = [] /\ cpn G8 8 = [] /\ class_of G8 1 = CNS /\
+  fst (run (exec true (OUnpeer6 1 5) [[2; 6]%N; [4; 8]%N]) G8) = inl [[2%N]; [4%N]] /\
+  trace_of (run (exec true (OUnpeer6 1 5) [[2; 6]%N; [4; 8]%N]) G8) = [6; 7; 8]%N.
+Proof. exact ex_unpeer6_peered_and_connected. Qed.
